@@ -338,8 +338,15 @@ impl ParallelPipeline {
             let mut collector = ChunkCollector::new();
             let continue_processing = operators[i].push(current_chunk, &mut collector)?;
 
-            if !continue_processing || collector.is_empty() {
+            if collector.is_empty() {
                 return Ok(continue_processing);
+            }
+            if !continue_processing {
+                // The operator asked to stop (e.g. LIMIT reached) but still produced its last
+                // rows: they must reach the downstream operators before terminating.
+                let rest = collector.into_single_chunk();
+                Self::push_through_from_index(operators, i + 1, rest, sink)?;
+                return Ok(false);
             }
 
             current_chunk = collector.into_single_chunk();
@@ -399,8 +406,15 @@ impl ParallelPipeline {
             let mut collector = ChunkCollector::new();
             let continue_processing = operators[i].push(current_chunk, &mut collector)?;
 
-            if !continue_processing || collector.is_empty() {
+            if collector.is_empty() {
                 return Ok(continue_processing);
+            }
+            if !continue_processing {
+                // The operator asked to stop (e.g. LIMIT reached) but still produced its last
+                // rows: they must reach the downstream operators before terminating.
+                let rest = collector.into_single_chunk();
+                Self::push_through_from_index(operators, i + 1, rest, sink)?;
+                return Ok(false);
             }
 
             current_chunk = collector.into_single_chunk();
